@@ -66,6 +66,7 @@ type FuncContract struct {
 	Line        int
 	PkgPath     string
 	Skip        []string // statements (by printed prefix) abstracted by havoc: listed as assumption
+	PureCallbacks []string // function-typed fields/params modelled as deterministic functions
 }
 
 type SpecFunc struct {
@@ -136,7 +137,7 @@ var clauseKeywords = map[string]bool{
 	"modifies": true, "loop": true, "closure": true, "canary": true, "assert": true, "assume": true, "ghost": true,
 	"spec": true, "axiom": true, "lemma": true, "regex": true, "property": true, "reveal": true,
 	"use": true, "decreases": true, "yields": true, "where": true, "distinct": true, "complete": true,
-	"mayfail": true, "begins": true, "inline": true, "table": true, "package": true, "skip": true, "ordered": true, "rec": true,
+	"mayfail": true, "begins": true, "callback": true, "inline": true, "table": true, "package": true, "skip": true, "ordered": true, "rec": true,
 }
 
 type rawLine struct {
@@ -330,6 +331,13 @@ func (c *Contracts) ParseText(path string, text string, pkgPath string) error {
 			} else {
 				return fail(l, "use outside a declaration")
 			}
+		case "callback":
+			// callback pure NAME
+			f := strings.Fields(rest)
+			if cur == nil || len(f) != 2 || f[0] != "pure" {
+				return fail(l, "callback pure NAME expected inside a func contract")
+			}
+			cur.PureCallbacks = append(cur.PureCallbacks, f[1])
 		case "skip":
 			if cur == nil {
 				return fail(l, "skip outside func")
